@@ -256,6 +256,53 @@ mod imp {
         matches!(again, Ok(ref r2) if r2 == first)
     }
 
+    /// `Clone::clone_from` is part of "can be cloned": other values of the same type (generated from shifted
+    /// views of the same entropy) are overwritten in place with `field`, and a clone of `field` with them.
+    fn cf<'a, F: Arbitrary<'a> + Clone + PartialEq>(base: &'a [u8], field: &F) -> bool {
+        for k in [0usize, 1, 2, 3, 5, 8, 13, 21, 34] {
+            if k > base.len() {
+                break;
+            }
+            if let Ok(o) = F::arbitrary(&mut Unstructured::new(&base[k..])) {
+                let mut d = o.clone();
+                d.clone_from(field);
+                if d != *field {
+                    return false;
+                }
+                let mut e = field.clone();
+                e.clone_from(&o);
+                if e != o {
+                    return false;
+                }
+            }
+        }
+        true
+    }
+
+    /// the same for member types without a generator of their own: the other values are given
+    fn cf_with<F: Clone + PartialEq>(field: &F, others: &[F]) -> bool {
+        others.iter().all(|o| {
+            let mut d = o.clone();
+            d.clone_from(field);
+            let mut e = field.clone();
+            e.clone_from(o);
+            d == *field && e == *o
+        })
+    }
+
+    fn clone_from_ok<'a>(base: &'a [u8], r: &ctap2::Request<'a>) -> bool {
+        cf(base, r)
+            && match r {
+                ctap2::Request::MakeCredential(m) => {
+                    cf(base, &m.rp) && cf(base, &m.user) && cf(base, &m.pub_key_cred_params) && cf_with(&m.exclude_list, &[None, Some(Default::default())]) && cf(base, &m.extensions) && cf(base, &m.options) && cf(base, &m.attestation_formats_preference)
+                }
+                ctap2::Request::GetAssertion(g) => cf_with(&g.allow_list, &[None, Some(Default::default())]) && cf(base, &g.extensions) && cf(base, &g.options) && cf(base, &g.attestation_formats_preference),
+                ctap2::Request::ClientPin(c) => cf_with(&c.key_agreement, &[None]),
+                ctap2::Request::CredentialManagement(c) => cf(base, &c.sub_command_params),
+                _ => true,
+            }
+    }
+
     enum Out {
         NotEnough,
         OtherError(String),
@@ -276,7 +323,7 @@ mod imp {
                     audit.ctap1(&r);
                     let dbg = format!("{:?}", r);
                     let c = r.clone();
-                    Out::Ok { variant: dbg.split(['(', ' ']).next().unwrap_or("").to_string(), problems: audit.problems, nonempty_strings: 0, clone_eq: c == r && regen_equal(&x.entropy, x.take_rest, &r), dbg_len: dbg.len(), dispatch: crate::c10::dispatch_generated1(&mut dev.mocks, &r) }
+                    Out::Ok { variant: dbg.split(['(', ' ']).next().unwrap_or("").to_string(), problems: audit.problems, nonempty_strings: 0, clone_eq: c == r && regen_equal(&x.entropy, x.take_rest, &r) && cf(&x.entropy, &r), dbg_len: dbg.len(), dispatch: crate::c10::dispatch_generated1(&mut dev.mocks, &r) }
                 }
                 Err(arbitrary::Error::NotEnoughData) => Out::NotEnough,
                 Err(e) => Out::OtherError(format!("{:?}", e)),
@@ -286,7 +333,7 @@ mod imp {
                     audit.ctap2(&r);
                     let dbg = format!("{:?}", r);
                     let c = r.clone();
-                    Out::Ok { variant: crate::real::variant_name(&r).to_string(), problems: audit.problems, nonempty_strings: audit.nonempty_strings, clone_eq: c == r && regen_equal(&x.entropy, x.take_rest, &r), dbg_len: dbg.len(), dispatch: crate::c10::dispatch_generated2(&mut dev.mocks, &r) }
+                    Out::Ok { variant: crate::real::variant_name(&r).to_string(), problems: audit.problems, nonempty_strings: audit.nonempty_strings, clone_eq: c == r && regen_equal(&x.entropy, x.take_rest, &r) && clone_from_ok(&x.entropy, &r), dbg_len: dbg.len(), dispatch: crate::c10::dispatch_generated2(&mut dev.mocks, &r) }
                 }
                 Err(arbitrary::Error::NotEnoughData) => Out::NotEnough,
                 Err(e) => Out::OtherError(format!("{:?}", e)),
@@ -295,7 +342,13 @@ mod imp {
                 Ok(r) => {
                     let dbg = format!("{:?}", r);
                     let c = r.clone();
-                    let clone_eq = c == r && regen_equal(&x.entropy, x.take_rest, &r);
+                    let clone_eq = c == r
+                        && regen_equal(&x.entropy, x.take_rest, &r)
+                        && cf(&x.entropy, &r)
+                        && match &r {
+                            authenticator::Request::Ctap2(q) => clone_from_ok(&x.entropy, q),
+                            _ => true,
+                        };
                     match &r {
                         authenticator::Request::Ctap1(q) => {
                             audit.ctap1(q);
@@ -337,7 +390,7 @@ mod imp {
                     return finding(rule, format!("generated {} request is not internally valid: {} [{}]", variant, p, x.desc));
                 }
                 if !clone_eq {
-                    return finding("clone_differs", format!("generated {} request does not compare equal to its clone or to a second generation from the same bytes [{}]", variant, x.desc));
+                    return finding("clone_differs", format!("generated {} request does not compare equal to its clone, to a second generation from the same bytes, or after clone_from [{}]", variant, x.desc));
                 }
                 if let Err(f) = dispatch {
                     return finding(&format!("dispatch_{}", f.rule), format!("generated {} request could not be dispatched without fault: {} [{}]", variant, f.detail, x.desc));
